@@ -67,7 +67,34 @@ def job_cell(job):
         T.reset()
         xs = [T.var('c%d' % i, 8) for i in range(n)]
         asm = alphabet_assumptions(m, xs)
-        I, r = run_encode(prog, xs, l, m, v)
+        try:
+            I, r = run_encode(prog, xs, l, m, v)
+        except M.Unsupported as e:
+            # the executor cannot follow this cell symbolically (e.g. a data-dependent bit length makes buffer indices
+            # symbolic).  Never "held": refute by a native differential against the oracle on seed-chosen payloads of this
+            # cell if possible, otherwise report the cell as inconclusive.
+            bad = None
+            for t in range(60):
+                data = random_payload(rnd, m, n)
+                if t < 10 and n >= 2:
+                    data[-2] = {0: 0x30, 1: 0x30, 2: 0}[m]
+                ans = native.ask('encode %s %d %d %d' % (OV.hexs(data), l, m, v))
+                ref = iso.encode_codewords(v + 1, level, mode, data)
+                if ans.startswith('PANIC') or ans == 'ABORT':
+                    bad = (data, 'encode panics (%s)' % ans[:60])
+                    break
+                nat = list(bytes.fromhex(OV.parse_fields(ans)['data']))[:dc]
+                if nat != ref:
+                    bad = (data, 'data codewords are %s..., ISO 7.4 gives %s...' % (bytes(nat[:12]).hex(), bytes(ref[:12]).hex()))
+                    break
+            res['validation']['cases'] += 60
+            if bad is None:
+                raise Inconclusive('unsupported construct in V%02d-%s %s n=%d (%s); 60 native payloads agree with the oracle' % (v + 1, level, mode, n, e))
+            res['failures'].append({'key': 'C06/bitstream', 'confirmed': True,
+                                    'what': '%s for %r (%s, V%02d-%s) [cell not executable symbolically: %s; found by native differential]' % (
+                                        bad[1], bytes(bad[0]), mode, v + 1, level, str(e)[:60]),
+                                    'replay': {'request': 'encode %s %d %d %d' % (OV.hexs(bad[0]), l, m, v)}})
+            continue
         if r is M.DEAD:
             raise Inconclusive('encode diverges for every payload of length %d' % n)
         got = list(r[1][0])[:dc]
